@@ -619,3 +619,54 @@ Proof.
   eapply check_quorum_steps_down; try eassumption.
   rewrite (LD SL). exact ID.
 Qed.
+
+(* ---------- two small contracts found through seeded changes ---------- *)
+
+(* MustSync: a Ready that exposes a new term or a new vote, or carries entries, asks for a durable
+   write (C02: the vote must not be forgotten in a crash; C05) *)
+Theorem ready_must_sync st rn rd :
+  ready_without_accept st rn = Ok rd ->
+  (hs_term (hard_state (rn_raft rn)) <> hs_term (rn_prev_hard rn) \/
+   hs_vote (hard_state (rn_raft rn)) <> hs_vote (rn_prev_hard rn) \/
+   u_next_entries (l_unstable (r_log (rn_raft rn))) <> []) ->
+  rd_must_sync rd = true.
+Proof.
+  unfold ready_without_accept. intros H C. cbv zeta in H.
+  destruct (l_next_committed_ents _ _ _) as [cents|]; cbn [bind] in H; [|discriminate].
+  assert (MS : must_sync (hard_state (rn_raft rn)) (rn_prev_hard rn)
+                         (nlen (u_next_entries (l_unstable (r_log (rn_raft rn))))) = true).
+  { unfold must_sync. destruct C as [C|[C|C]].
+    - apply orb_true_iff. right. apply negb_true_iff, N.eqb_neq. exact C.
+    - apply orb_true_iff. left. apply orb_true_iff. right. apply negb_true_iff, N.eqb_neq. exact C.
+    - apply orb_true_iff. left. apply orb_true_iff. left. apply negb_true_iff, N.eqb_neq.
+      destruct (u_next_entries _); [congruence|]. unfold nlen. cbn [length]. lia. }
+  destruct (rn_async rn).
+  - match type of H with bind ?x _ = _ => destruct x as [sa|]; cbn [bind] in H; [|discriminate] end.
+    inversion H; subst. exact MS.
+  - inversion H; subst. exact MS.
+Qed.
+
+(* a granted pre-vote response answers a pre-campaign: at a node that is not a pre-candidate it
+   changes nothing, whatever term it carries (C17) *)
+Theorem prevote_grant_elsewhere_ignored st r m r' e :
+  m_type m = MsgPreVoteResp -> m_reject m = false -> r_state r <> StatePreCandidate ->
+  step st r m = Ok (r', e) -> r' = r.
+Proof.
+  intros TY RJ NP H. unfold step, step_gen in H.
+  assert (DISP : step_dispatch st (step_inner st) r m = Ok (r', e) -> r' = r).
+  { intros D. unfold step_dispatch in D. rewrite TY in D.
+    destruct (r_state r) eqn:RS; try congruence.
+    - unfold step_follower in D. rewrite TY in D. inversion D; reflexivity.
+    - unfold step_candidate in D. rewrite TY, RS in D. cbn in D. inversion D; reflexivity.
+    - unfold step_leader in D. rewrite TY in D.
+      destruct (get_progress r (m_from m)); inversion D; reflexivity. }
+  destruct (step_preamble st (step_inner st) r m) as [[r1 c]|] eqn:EP; cbn [bind] in H; [|discriminate].
+  unfold step_preamble in EP. rewrite TY, RJ in EP.
+  destruct (N.eqb (m_term m) 0).
+  { inversion EP; subst. cbn [negb] in H. exact (DISP H). }
+  destruct (r_term r <? m_term m).
+  { cbn [andb negb] in EP. inversion EP; subst. cbn [negb] in H. exact (DISP H). }
+  destruct (m_term m <? r_term r).
+  { inversion EP; subst. cbn [negb] in H. inversion H; reflexivity. }
+  inversion EP; subst. cbn [negb] in H. exact (DISP H).
+Qed.
